@@ -1174,6 +1174,8 @@ class Interp:
         for op, rhs in zip(e.ops, e.comparators):
             right = self.eval_expr(rhs, env)
             r = self.bm.compare(self, type(op), left, right)
+            if isinstance(r, SymObj) and len(e.ops) == 1:
+                return r  # elementwise comparison of a modelled array (compare_hook)
             if isinstance(r, bool):
                 if not r:
                     return False
